@@ -1,3 +1,279 @@
-(* Property C20 *)
-From Coq Require Import NArith ZArith List.
-From MiV Require Import Model.Opt Proofs.OptProofs.
+(* Property C20 -- options, environment parsing and diagnostic output are total and memory-safe.
+   Only statements, each closed by `exact <lemma>`, Print Assumptions, and Examples.
+   Vocabulary (Model/Opt.v, Proofs/OptProofs.v): a destination buffer carries a `fault` flag that is
+   set by any read or write at an index >= its length, so `fault = false` + `blen = size` says "never
+   touches memory outside the buffer of that size"; `okb b n` abbreviates both. *)
+From Coq Require Import NArith ZArith List Bool.
+From MiV Require Import Gen.Consts Gen.Options Model.Arith Model.Opt Proofs.Base Proofs.OptProofs.
+Import ListNotations.
+Local Open Scope N_scope.
+
+(* ---- bounded string helpers -------------------------------------------------------------- *)
+(* _mi_strlcpy(&b[d], src, size) for every source, every size > 0 and every destination that has
+   `size` bytes at d: no fault; n = min(strlen src, size-1) < size bytes of the source are copied,
+   followed by the terminator; every other byte of the destination is unchanged *)
+Theorem strlcpy_bounded_terminated : forall b d src size,
+  0 < size -> d + size <= blen b -> fault b = false ->
+  let r := strlcpy b d src size in
+  let n := N.min (strlen src) (size - 1) in
+  fault r = false /\ blen r = blen b /\ n < size /\
+  (forall i, i < n -> bget r (d + i) = nthN src i) /\
+  bget r (d + n) = 0 /\
+  (forall j, j < d \/ d + n < j -> bget r j = bget b j).
+Proof. exact strlcpy_spec. Qed.
+Print Assumptions strlcpy_bounded_terminated.
+
+(* _mi_strlcat: k = length of the string already in the destination (at most size-1) *)
+Theorem strlcat_bounded_terminated : forall b d src size,
+  0 < size -> d + size <= blen b -> fault b = false ->
+  let r := strlcat b d src size in
+  let k := N.min (strlen (dropN (bdata b) d)) (size - 1) in
+  let n := N.min (strlen src) (size - k - 1) in
+  fault r = false /\ blen r = blen b /\ k + n < size /\
+  (forall i, i < n -> bget r (d + k + i) = nthN src i) /\
+  bget r (d + k + n) = 0 /\
+  (forall j, j < d + k \/ d + k + n < j -> bget r j = bget b j).
+Proof. exact strlcat_spec. Qed.
+Print Assumptions strlcat_bounded_terminated.
+
+(* _mi_getenv on an arbitrary environment, name and result buffer: no fault; when found, the result
+   holds the first min(strlen value, size-1) bytes of the value of an entry that defines the name
+   (case-insensitively), terminated; when not found the buffer is untouched *)
+Theorem getenv_bounded : forall env name res size,
+  size <= blen res -> fault res = false ->
+  let '(found, r) := mi_getenv env name res size in
+  fault r = false /\ blen r = blen res /\
+  (found = false -> r = res) /\
+  (found = true -> 64 <= size /\ exists s, In s env /\ env_match name s = true /\
+      let n := N.min (strlen (env_value name s)) (size - 1) in
+      n < size /\ (forall i, i < n -> bget r i = nthN (env_value name s) i) /\ bget r n = 0 /\
+      (forall j, n < j -> bget r j = bget res j)).
+Proof. exact getenv_bounded_lemma. Qed.
+Print Assumptions getenv_bounded.
+
+(* with at most 10000 entries, "not found" means that no entry defines the name *)
+Theorem getenv_complete : forall env name res size r,
+  64 <= size -> strlen name <> 0 -> N.of_nat (length env) <= 10000 ->
+  mi_getenv env name res size = (false, r) -> forall s, In s env -> env_match name s = false.
+Proof. exact mi_getenv_notfound. Qed.
+Print Assumptions getenv_complete.
+
+(* ---- the decision of mi_option_init on a value ------------------------------------------- *)
+(* u: the value as mi_option_init sees it (bytes, no NUL).  Exactly the empty string and the words
+   1/TRUE/YES/ON in any letter case give 1, exactly 0/FALSE/NO/OFF give 0 (PWord) *)
+Theorem parse_bool_words : forall kib u, isbytes u = true -> nonul u = true ->
+  (parse_value kib u = PWord 1 <-> u = [] \/ In (map toupper u) true_words) /\
+  (parse_value kib u = PWord 0 <-> In (map toupper u) false_words).
+Proof. exact parse_bool_words_lemma. Qed.
+Print Assumptions parse_bool_words.
+
+(* [whitespace][sign]digits on an ordinary option: the decimal value, saturated to LONG_MAX/LONG_MIN *)
+Theorem parse_decimal_saturates : forall ws sg ds,
+  forallb isspace ws = true -> is_sign sg -> ds <> [] -> forallb isdigit ds = true ->
+  let u := ws ++ sg ++ ds in
+  u <> w_1 -> u <> w_0 ->
+  parse_value false u = PNum (clamp_long (sign_apply sg (decval ds))).
+Proof. exact parse_decimal_lemma. Qed.
+Print Assumptions parse_decimal_saturates.
+
+Theorem clamp_long_saturates : forall v,
+  ((LONG_MAX_ < v)%Z -> clamp_long v = LONG_MAX_) /\
+  ((v < LONG_MIN_)%Z -> clamp_long v = LONG_MIN_) /\
+  ((LONG_MIN_ <= v <= LONG_MAX_)%Z -> clamp_long v = v).
+Proof. exact clamp_long_spec. Qed.
+Print Assumptions clamp_long_saturates.
+
+(* [whitespace][sign]digits[K|M|G|T][B|IB] on the two size-in-KiB options *)
+Theorem parse_size_suffixes : forall ws sg ds un tl,
+  forallb isspace ws = true -> is_sign sg -> ds <> [] -> forallb isdigit ds = true -> is_unit un -> is_tail tl ->
+  let u := ws ++ sg ++ ds ++ un ++ tl in
+  u <> w_1 -> u <> w_0 ->
+  parse_value true u = PNum (kib_value (clamp_long (sign_apply sg (decval ds))) (hd0 (un ++ tl))).
+Proof. exact parse_size_lemma. Qed.
+Print Assumptions parse_size_suffixes.
+
+(* ... where the value in KiB is: bytes rounded up without unit, x1 / x1024 / x2^20 / x2^30 for
+   K / M / G / T, negative numbers count as 0, and anything above MI_MAX_ALLOC_SIZE (in particular a
+   product that overflows size_t) saturates to MI_MAX_ALLOC_SIZE / KiB *)
+Theorem parse_size_values : forall v,
+  let size := Z.to_N (Z.max 0 v) in
+  kib_value v 0  = Z.of_N (sat_kib ((size + 1023) / 1024)) /\
+  kib_value v 66 = Z.of_N (sat_kib ((size + 1023) / 1024)) /\
+  kib_value v 73 = Z.of_N (sat_kib ((size + 1023) / 1024)) /\
+  kib_value v 75 = Z.of_N (sat_kib size) /\
+  kib_value v 77 = Z.of_N (sat_kib (size * 1024)) /\
+  kib_value v 71 = Z.of_N (sat_kib (size * 1048576)) /\
+  kib_value v 84 = Z.of_N (sat_kib (size * 1073741824)).
+Proof. exact kib_value_units. Qed.
+Print Assumptions parse_size_values.
+
+(* "malformed" as a boolean predicate: not empty, not one of the eight words, not in the grammar;
+   the value is rejected exactly then.  grammar_b is the declarative grammar (second theorem) *)
+Theorem malformed_iff_invalid : forall kib u, nonul u = true -> isbytes u = true ->
+  (parse_value kib u = PInvalid <-> malformed_b kib u = true).
+Proof. exact parse_invalid_iff. Qed.
+Print Assumptions malformed_iff_invalid.
+
+Theorem malformed_grammar : forall kib u, grammar_b kib u = true <-> Grammar kib u.
+Proof. exact grammar_b_iff. Qed.
+Print Assumptions malformed_grammar.
+
+(* mi_option_init after the value was found (s: the 65-byte array holding the value, a value of at
+   most 64 bytes; b: the 65-byte scratch array): a malformed value leaves the option's value in
+   place with init = DEFAULTED and changes no other option; every other value initialises the
+   option; no fault in either array.  (iff: the two cases are complementary) *)
+Theorem malformed_keeps_default : forall t i s b,
+  in_range t i = true -> fault s = false -> fault b = false -> 65 <= blen b ->
+  lenN (bstr s 0) <= 64 -> isbytes (bstr s 0) = true ->
+  let u := map toupper (bstr s 0) in
+  let '(r, s', b') := option_init_found t i s b in
+  fault s' = false /\ fault b' = false /\
+  (malformed_b (has_size_in_kib i) u = true ->
+     exists t', r = Some t' /\ o_value (tget t' i) = o_value (tget t i) /\ o_init (tget t' i) = DEFAULTED /\
+                forall j, j <> i -> tget t' j = tget t j) /\
+  (malformed_b (has_size_in_kib i) u = false -> exists t', r = Some t' /\ o_init (tget t' i) = INITIALIZED).
+Proof. exact malformed_keeps_default_lemma. Qed.
+Print Assumptions malformed_keeps_default.
+
+(* values longer than 64 bytes: only the first 64 bytes take part in the decision (known finding
+   impl:long-value-truncated: the clause "malformed keeps the default" fails for them) *)
+Theorem long_value_truncated : forall t i s b,
+  fault s = false -> fault b = false -> 65 <= blen b ->
+  let '(r, s', b') := option_init_found t i s b in
+  r = apply_pres t i (parse_value (has_size_in_kib i) (map toupper (takeN 64 (bstr s 0)))) /\
+  fault s' = false /\ fault b' = false /\ blen b' = blen b.
+Proof. exact option_init_found_spec. Qed.
+Print Assumptions long_value_truncated.
+
+(* witness: purge_delay with <63 spaces>"1x" (65 bytes, malformed) becomes 1 *)
+Definition long_witness : bytes := repeatN 32 63 ++ [49; 120].
+Definition idx_purge_delay : nat := 15.
+Theorem long_value_refuted :
+  lenN long_witness = 65 /\ malformed_b false (map toupper long_witness) = true /\
+  o_name (tget table0 idx_purge_delay) = [112; 117; 114; 103; 101; 95; 100; 101; 108; 97; 121] /\
+  get_via_env idx_purge_delay long_witness = Some (1%Z, INITIALIZED, false) /\
+  o_value (tget table0 idx_purge_delay) <> 1%Z.
+Proof. vm_compute. repeat split; discriminate. Qed.
+Print Assumptions long_value_refuted.
+
+(* ---- option table ------------------------------------------------------------------------- *)
+Theorem set_get_roundtrip : forall t i v env pre s0 b0, in_range t i = true ->
+  exists t', option_set t i v = Some t' /\ option_get t' i env pre s0 b0 = Some (v, t', false) /\
+             o_init (tget t' i) = INITIALIZED.
+Proof. exact set_get_roundtrip_lemma. Qed.
+Print Assumptions set_get_roundtrip.
+
+(* mi_option_set changes only the option itself and the coupled guarded_min/guarded_max *)
+Theorem set_frame : forall t i v, in_range t i = true ->
+  exists t', option_set t i v = Some t' /\ length t' = length t /\
+             o_value (tget t' i) = v /\ o_init (tget t' i) = INITIALIZED /\
+             (forall j, j <> i -> j <> opt_guarded_min -> j <> opt_guarded_max -> tget t' j = tget t j).
+Proof. exact option_set_spec. Qed.
+Print Assumptions set_frame.
+
+Theorem set_default_spec : forall t i v, in_range t i = true ->
+  let t' := option_set_default t i v in
+  o_init (tget t' i) = o_init (tget t i) /\
+  o_value (tget t' i) = (if o_init (tget t i) =? INITIALIZED then o_value (tget t i) else v) /\
+  (forall j, j <> i -> tget t' j = tget t j).
+Proof. exact set_default_lemma. Qed.
+Print Assumptions set_default_spec.
+
+Theorem option_out_of_range_ignored : forall t i v env pre s0 b0, in_range t i = false ->
+  option_set t i v = Some t /\ option_set_default t i v = t /\ option_get t i env pre s0 b0 = Some (0%Z, t, false).
+Proof. exact out_of_range_lemma. Qed.
+Print Assumptions option_out_of_range_ignored.
+
+(* every option of the table regenerated from /repo, through the complete mi_option_get path
+   (MIMALLOC_<NAME> lookup, parsing, table update): decimal, words, empty, sign, unit, malformed *)
+Theorem env_sets_every_option : forallb check_env_option (seq 0 option_count) = true.
+Proof. exact env_sets_every_option_lemma. Qed.
+Print Assumptions env_sets_every_option.
+
+(* ---- _mi_vsnprintf ------------------------------------------------------------------------ *)
+(* for every format, argument list and buffer size: a result exists (the loop terminates), nothing
+   outside the bufsize bytes is touched, and for bufsize > 0 the returned length is < bufsize with a
+   terminator at that index.  `base` is the address of the buffer; the hypothesis excludes field
+   widths so large that `start + width` wraps around the address space in mi_out_alignright
+   (fmt_maxw fmt = the largest width written in fmt; see vsnprintf_width_wrap_faults) *)
+Theorem vsnprintf_no_fault_terminated : forall base fmt args b bufsize,
+  blen b = bufsize -> fault b = false -> base + bufsize + N.max (fmt_maxw fmt) 16 < W64 ->
+  exists r ret, vsnprintf base b bufsize fmt args = Some (r, ret) /\
+    fault r = false /\ blen r = bufsize /\
+    (bufsize = 0 -> r = b /\ ret = 0) /\
+    (0 < bufsize -> ret < bufsize /\ bget r ret = 0).
+Proof. exact vsnprintf_lemma. Qed.
+Print Assumptions vsnprintf_no_fault_terminated.
+
+(* outside that hypothesis the code does fault: a width of 2^64-8 on a stack-like address *)
+Example vsnprintf_width_wrap_faults :
+  match vsnprintf 140737488351200 (newbuf 170 32) 32
+          [37; 49; 56; 52; 52; 54; 55; 52; 52; 48; 55; 51; 55; 48; 57; 53; 53; 49; 54; 48; 56; 100] [AInt 5] with
+  | Some (r, _) => fault r = true
+  | None => False
+  end.
+Proof. vm_compute. reflexivity. Qed.
+
+(* ---- output buffers ------------------------------------------------------------------------ *)
+(* the delayed output buffer out_buf[MI_MAX_DELAY_OUTPUT+1]: any sequence of mi_out_buf and
+   mi_out_buf_flush calls from any out_len stays inside it (messages shorter than 2^64-16384 bytes) *)
+Theorem out_buf_bounded : forall ops b len,
+  okb b (MAX_DELAY + 1) -> len < W64 -> Forall out_op_ok ops ->
+  let '(b', len') := fold_left out_step ops (b, len) in okb b' (MAX_DELAY + 1) /\ len' < W64.
+Proof. exact out_buf_bounded_lemma. Qed.
+Print Assumptions out_buf_bounded.
+
+(* mi_buffered_out with a buffer of count+1 bytes, count > 0 (the only call site uses 255) *)
+Theorem buffered_out_bounded : forall msg count b used outl,
+  0 < count -> okb b (count + 1) -> used <= count ->
+  let '(b', used', outl') := buffered_out msg count (b, used, outl) in okb b' (count + 1) /\ used' <= count.
+Proof. exact buffered_out_lemma. Qed.
+Print Assumptions buffered_out_bounded.
+
+(* mi_heap_buf_print for every message, every (caller) buffer size and every outcome of the
+   reallocations: stays inside the buffer, used < size, the text stays 0-terminated within the
+   size; a caller-supplied buffer (can_realloc = false) is never resized *)
+Theorem heap_buf_bounded : forall h msg grows, hinv h ->
+  let '(h', grows') := heap_buf_print h msg grows in
+  hinv h' /\ (h_can_realloc h = false -> h_size h' = h_size h) /\ h_can_realloc h' = h_can_realloc h.
+Proof. exact heap_buf_bounded_lemma. Qed.
+Print Assumptions heap_buf_bounded.
+
+(* ---- examples: the hypotheses are satisfiable, concrete values ------------------------------ *)
+Definition B (l : list N) : bytes := l.
+(* "TrUe" -> 1, "off" -> 0, "E" and ";" (fragments accepted before the repair a38bfd4) -> invalid *)
+Example ex_words : parse_value false (map toupper [84; 114; 85; 101]) = PWord 1 /\
+                   parse_value false (map toupper [111; 102; 102]) = PWord 0 /\
+                   parse_value false [69] = PInvalid /\ parse_value false [59] = PInvalid /\
+                   malformed_b false [69] = true.
+Proof. vm_compute. repeat split. Qed.
+(* "  +7" -> 7; 20 nines saturate to LONG_MAX; "-99999999999999999999" to LONG_MIN *)
+Example ex_decimal : parse_value false [32; 32; 43; 55] = PNum 7 /\
+                     parse_value false (repeatN 57 20) = PNum LONG_MAX_ /\
+                     parse_value false (45 :: repeatN 57 20) = PNum LONG_MIN_.
+Proof. vm_compute. repeat split. Qed.
+(* "3GIB" -> 3*2^20 KiB; "1025" bytes -> 2 KiB; "99999999999T" saturates; a bare "K" / "MIB" is invalid
+   (repair 6b9e244); "12K" on an ordinary option is invalid *)
+Example ex_size : parse_value true [51; 71; 73; 66] = PNum 3145728 /\
+                  parse_value true [49; 48; 50; 53] = PNum 2 /\
+                  parse_value true (repeatN 57 11 ++ [84]) = PNum (Z.of_N (MI_MAX_ALLOC_SIZE / 1024)) /\
+                  parse_value true [75] = PInvalid /\ parse_value true [77; 73; 66] = PInvalid /\
+                  parse_value false [49; 50; 75] = PInvalid.
+Proof. vm_compute. repeat split. Qed.
+(* strlcpy of "mimalloc_" into 5 bytes: "mima\0" *)
+Example ex_strlcpy : bdata (strlcpy (newbuf 170 5) 0 [109; 105; 109; 97; 108; 108; 111; 99; 95] 5) = [109; 105; 109; 97; 0].
+Proof. vm_compute. reflexivity. Qed.
+(* "a%5d|%-4s|%x" with 42, "xy", 255 into 20 bytes *)
+Example ex_vsnprintf :
+  match vsnprintf 1000 (newbuf 170 20) 20 [97; 37; 53; 100; 124; 37; 45; 52; 115; 124; 37; 120] [AInt 42; AStr [120; 121]; AInt 255] with
+  | Some (r, ret) => ret = 14 /\ takeN 15 (bdata r) = [97; 32; 32; 32; 52; 50; 124; 120; 121; 32; 32; 124; 70; 70; 0] /\ fault r = false
+  | None => False
+  end.
+Proof. vm_compute. repeat split. Qed.
+(* a JSON-style print into a caller buffer of 4 bytes: "{\n" fits, the next message is cut, terminated *)
+Example ex_heap_buf :
+  let h0 := mkh (newbuf 0 4) 4 0 false in
+  let h1 := fst (heap_buf_print h0 [123; 10] []) in
+  let h2 := fst (heap_buf_print h1 [32; 32; 34; 118] []) in
+  hinv h0 /\ bdata (h_buf h1) = [123; 10; 0; 0] /\ bdata (h_buf h2) = [123; 10; 32; 0] /\ fault (h_buf h2) = false.
+Proof. vm_compute. repeat split; try (exists 0; split; reflexivity); discriminate. Qed.
